@@ -121,11 +121,12 @@ def run_pool(prop, which, tier, seed, rule, assumptions):
     explore.close_pool()
     total = 0
     classes = set()
-    for n, out, cl in res:
+    for t, (n, out, cl) in zip(tasks, res):
         total += n
         classes |= cl
         for k, det in out:
-            col.add(k, {'msg': det['msg'], 'asn4': det['asn4'], 'family': det['family'], 'class_vector': det['class_vector']}, det)
+            col.add(k, {'msg': det['msg'], 'asn4': det['asn4'], 'family': det['family'], 'class_vector': det['class_vector'],
+                        'case': report.pack((det['msg'], det['asn4']))}, det, task=t)
     n_new, n_known, summary = col.finish('roundtrip-case')
     sample = next(iter(pools.c06_cases(tier) if which == 'c06' else pools.c07_cases(tier)))
     cov = {
@@ -164,14 +165,16 @@ def replay(path, prop=PROP):
         if isinstance(x, list):
             return [fix(v) for v in x]
         return x
-    msg = fix(w['msg'])
-    # afi_safi and AS_PATH segments are tuples in the pools
-    r1 = codec.roundtrip(msg, w['asn4'], upd)
-    r2 = codec.roundtrip(msg, w['asn4'], upd)
+    msg = report.unpack(w['case'])[0] if 'case' in w else fix(w['msg'])      # the pickled case keeps tuples as tuples
+    if '|session-path|' in d['key']:
+        return report.replay_in_task(d, _dispatch)
+    r1, r2 = report.twice(codec.roundtrip, msg, w['asn4'], upd)
     if repr(r1) != repr(r2):
         print('HARNESS-ERROR: replay is not deterministic')
         return 2
     print('input :', msg, 'asn4 =', w['asn4'])
     print('result:', r1[0])
     print('detail:', json.dumps(r1[1], default=str)[:1500] if r1[1] else None)
-    return 1 if r1[0] and d['key'].endswith(r1[0]) else 0
+    if r1[0] and d['key'].endswith(r1[0]):
+        return 1
+    return report.replay_in_task(d, _dispatch)
